@@ -8,7 +8,7 @@ from concurrent.futures import ThreadPoolExecutor
 import vlib
 from checks import common
 
-KERNELS = ["infinity_norm", "center_mod", "decompose", "make_hint", "power2round", "bit_pack", "ntt", "inv_ntt", "mat_vec_mul", "to_mont", "reductions"]
+KERNELS = ["infinity_norm", "center_mod", "decompose", "make_hint", "power2round", "bit_pack", "ntt", "inv_ntt", "mat_vec_mul", "to_mont", "reductions", "half_byte"]
 
 
 def known_variant_instructions(bindir):
